@@ -365,7 +365,7 @@ func oneLogin(conn *tds.Conn, ch *tds.Channel, p *peer, cfg Cfg) (res Result) {
 	}()
 	// the caller's context ends when nothing can arrive any more: the peer has nothing in flight, the reader is parked,
 	// the channel's queues are empty, and that has been so for a while
-	hard := time.After(30 * time.Second)
+	hard := time.After(15 * time.Second)
 	tick := time.NewTicker(4 * time.Millisecond)
 	defer tick.Stop()
 	var o outcome
@@ -382,6 +382,11 @@ loop:
 			break loop
 		case <-hard:
 			res.Class = -2
+			res.Caps = sx.L{}
+			res.PackSize = conn.PacketSize()
+			p.mu.Lock()
+			res.Msgs = append([][][]byte{}, p.msgs...)
+			p.mu.Unlock()
 			cancel()
 			return res
 		case <-tick.C:
@@ -572,6 +577,7 @@ type Script struct {
 	Pem    []byte // the PEM bytes the script carries (for the oracle)
 	Tag    string
 	Retry  [][]Item // if set: replies of a first login attempt on the same connection, which must be rejected
+	Stall  bool     // the server stalls in its last reply: the last packet does not carry the end-of-message flag
 }
 
 func (s Script) packetise(g *pk.Gen, mode int) [][]core.Pkt {
@@ -611,6 +617,10 @@ func (s Script) packetise(g *pk.Gen, mode int) [][]core.Pkt {
 		}
 		pkts := core.Packetise(msg, cuts)
 		rounds = append(rounds, pkts)
+	}
+	if s.Stall && len(rounds) > 0 {
+		last := rounds[len(rounds)-1]
+		last[len(last)-1].EOM = false
 	}
 	return rounds
 }
